@@ -76,6 +76,59 @@ def to_xlsx(wb, tables=None):
     return b.getvalue()
 
 
+def _col(n):
+    out = ""
+    n += 1
+    while n:
+        n, r = divmod(n - 1, 26)
+        out = chr(65 + r) + out
+    return out
+
+
+def to_xlsx_raw(wb, tables=None):
+    """Minimal hand-written xlsx (inline strings, numbers with full repr precision, booleans):
+    openpyxl's own writer rounds floats to 16 significant digits, Excel does not."""
+    import zipfile
+    from xml.sax.saxutils import escape
+
+    names = sheet_names(wb) if tables is None else list(tables)
+    b = io.BytesIO()
+    with zipfile.ZipFile(b, "w", zipfile.ZIP_DEFLATED) as z:
+        ct = ['<?xml version="1.0" encoding="UTF-8" standalone="yes"?>',
+              '<Types xmlns="http://schemas.openxmlformats.org/package/2006/content-types">',
+              '<Default Extension="rels" ContentType="application/vnd.openxmlformats-package.relationships+xml"/>',
+              '<Default Extension="xml" ContentType="application/xml"/>',
+              '<Override PartName="/xl/workbook.xml" ContentType="application/vnd.openxmlformats-officedocument.spreadsheetml.sheet.main+xml"/>']
+        for i in range(len(names)):
+            ct.append(f'<Override PartName="/xl/worksheets/sheet{i + 1}.xml" ContentType="application/vnd.openxmlformats-officedocument.spreadsheetml.worksheet+xml"/>')
+        ct.append("</Types>")
+        z.writestr("[Content_Types].xml", "".join(ct))
+        z.writestr("_rels/.rels", '<?xml version="1.0" encoding="UTF-8" standalone="yes"?><Relationships xmlns="http://schemas.openxmlformats.org/package/2006/relationships"><Relationship Id="rId1" Type="http://schemas.openxmlformats.org/officeDocument/2006/relationships/officeDocument" Target="xl/workbook.xml"/></Relationships>')
+        shs = "".join(f'<sheet name="{escape(n, {chr(34): "&quot;"})}" sheetId="{i + 1}" r:id="rId{i + 1}"/>' for i, n in enumerate(names))
+        z.writestr("xl/workbook.xml", '<?xml version="1.0" encoding="UTF-8" standalone="yes"?><workbook xmlns="http://schemas.openxmlformats.org/spreadsheetml/2006/main" xmlns:r="http://schemas.openxmlformats.org/officeDocument/2006/relationships"><sheets>' + shs + "</sheets></workbook>")
+        rels = "".join(f'<Relationship Id="rId{i + 1}" Type="http://schemas.openxmlformats.org/officeDocument/2006/relationships/worksheet" Target="worksheets/sheet{i + 1}.xml"/>' for i in range(len(names)))
+        z.writestr("xl/_rels/workbook.xml.rels", '<?xml version="1.0" encoding="UTF-8" standalone="yes"?><Relationships xmlns="http://schemas.openxmlformats.org/package/2006/relationships">' + rels + "</Relationships>")
+        for i, n in enumerate(names):
+            rows = table(wb, n) if tables is None else tables[n]
+            out = ['<?xml version="1.0" encoding="UTF-8" standalone="yes"?><worksheet xmlns="http://schemas.openxmlformats.org/spreadsheetml/2006/main"><sheetData>']
+            for r, row in enumerate(rows):
+                cells = []
+                for c, v in enumerate(row):
+                    if v is None:
+                        continue
+                    ref = f"{_col(c)}{r + 1}"
+                    if isinstance(v, bool):
+                        cells.append(f'<c r="{ref}" t="b"><v>{int(v)}</v></c>')
+                    elif isinstance(v, (int, float)):
+                        cells.append(f'<c r="{ref}" t="n"><v>{v!r}</v></c>')
+                    else:
+                        cells.append(f'<c r="{ref}" t="inlineStr"><is><t xml:space="preserve">{escape(str(v))}</t></is></c>')
+                out.append(f'<row r="{r + 1}">' + "".join(cells) + "</row>")
+            out.append("</sheetData></worksheet>")
+            z.writestr(f"xl/worksheets/sheet{i + 1}.xml", "".join(out))
+    return b.getvalue()
+
+
 def _xlsx_cell(v):
     if isinstance(v, (tuple, list)) and v and v[0] == "date":
         import datetime
@@ -162,7 +215,9 @@ def render(wb, fmt, tables=None):
     if fmt == "csv":
         return to_csv(wb), {"file_type": ".csv"}
     if fmt in ("xlsx", "xlsm"):
-        return to_xlsx(wb, tables), {"file_type": "." + fmt}
+        return to_xlsx_raw(wb, tables), {"file_type": "." + fmt}
+    if fmt == "xlsx-openpyxl":
+        return to_xlsx(wb, tables), {"file_type": ".xlsx"}
     if fmt == "xls":
         return to_xls(wb, tables), {"file_type": ".xls"}
     raise ValueError(fmt)
